@@ -450,6 +450,9 @@ class DependencyStatus(object):
     def __init__(self, get_log):
         self.get_log = get_log
         self.status = 'up-to-date'
+        # status given by the first reason found: the point where
+        # get_status() returns when get_log is False
+        self._decided = None
         # save reason task is not up-to-date
         self.reasons = defaultdict(list)
         self.error_reason = None
@@ -458,7 +461,9 @@ class DependencyStatus(object):
         """sets state and append reason for not being up-to-date
         :return boolean: processing should be interrupted
         """
-        self.status = status
+        if self._decided is None:
+            self._decided = status
+        self.status = self._decided
         if self.get_log:
             self.reasons[reason].append(arg)
         return not self.get_log
@@ -467,7 +472,9 @@ class DependencyStatus(object):
         """sets state and reason for not being up-to-date
         :return boolean: processing should be interrupted
         """
-        self.status = 'run'
+        if self._decided is None:
+            self._decided = 'run'
+        self.status = self._decided
         if self.get_log:
             self.reasons[reason] = arg
         return not self.get_log
@@ -687,8 +694,9 @@ class Dependency(object):
             if get_log:
                 added_files = sorted(list(task.file_dep - previous_set))
                 removed_files = sorted(list(previous_set - task.file_dep))
-                result.set_reason('added_file_dep', added_files)
-                result.set_reason('removed_file_dep', removed_files)
+                # not a point where get_log=False returns: log only
+                result.reasons['added_file_dep'] = added_files
+                result.reasons['removed_file_dep'] = removed_files
             result.status = 'run'
 
         # list of file_dep that changed
